@@ -1,5 +1,6 @@
 import SafeNet.Proofs.Replication
 import SafeNet.Proofs.ReplicationRounds
+import SafeNet.Proofs.ReplicationPhases
 import SafeNet.Props.C11
 /-!
 # C09 — records replicate to in-range neighbours and replicas converge
@@ -22,6 +23,12 @@ throttle}` joined by a wire; the fetcher is the C08 model, `store_replicated_in_
   the diverging key is the only new key of each advertisement (`OnlyNew`); see the note at the theorem.
 * scratchpads: `ScratchpadsConverge` is false of the code (K-g): `scratchpad_never_fetched`,
   `scratchpad_never_converges_witness`.
+* beyond the FairRound restrictions (`Proofs/ReplicationPhases.lean`): `big_advert_converge_partial_*` — one advertisement
+  with ANY number of new keys is worked off inside one exchange, batch by batch, in at most that many replies, in any
+  reply order; `concurrent_adverts_serial_*` — several advertisements in flight at one requester, any interleaving, same
+  join as the serialised exchanges; `mutable_converge_*_big` / `mutable_converge_*_phases` / `immutable_converge_phases` —
+  the `n`-node convergence theorems over such schedules; `big_advert_stall_witness` — why the remaining hypothesis
+  (fewer than MAX_PARALLEL_FETCH no-op fetches) is needed.
 -/
 namespace SafeNet.Props.C09
 open SafeNet.Replication SafeNet.Gen.Replication
@@ -60,12 +67,14 @@ theorem only_close_holders_heard_sys (w : World) (s : Sys) (m src dst holder : N
     (step w s (.deliver m choice)).1.wire = (s.unwire m).wire ∧
     (step w s (.deliver m choice)).2.sched = [] ∧ (step w s (.deliver m choice)).2.newMsgs = [] := by
   obtain ⟨h1, h2⟩ := only_close_holders_heard w dst ((s.unwire m).node dst) holder keys choice hfar
-  simp only [step, hm, deliverRep]
-  generalize hr : nodeRep w dst ((s.unwire m).node dst) holder keys choice = r at h1 h2
-  obtain ⟨nd, o⟩ := r
-  simp only at h1 h2
-  subst h1
-  simp [h2, fetchMsgs, Sys.send, Sys.setNode, Sys.node, Sys.unwire, set_getD_self]
+  simp only [step, hm, deliverRep, deliverRepWith]
+  split
+  · simp [Sys.unwire]
+  · generalize hr : nodeRep w dst ((s.unwire m).node dst) holder keys choice = r at h1 h2
+    obtain ⟨nd, o⟩ := r
+    simp only at h1 h2
+    subst h1
+    simp [h2, fetchMsgs, Sys.send, Sys.setNode, Sys.node, Sys.unwire, set_getD_self]
 
 /-- the closeness check is what the source does today (breaks if the guard is dropped) -/
 theorem closeness_guard_present : replicateChecksCloseness = true ∧ replicateRejectsSelf = true ∧
@@ -296,6 +305,93 @@ theorem scratchpad_accept_partial (w : World) (b : Nat) (nb : NodeSt) (k n m : N
   have : ¬ n ≤ m := by omega
   simp only [nodeRsp, replWrites_pad_held nb.store k n m v hk hheld, this, if_false, putLocal]
   exact get_put_same _ _ _
+
+/-! ## (3') the SENDER of an advertisement: nobody can speak for a close peer
+
+`only_close_holders_heard*` above are about the `holder` FIELD of the message. The request's authenticated sender is a
+different thing: until the repair the `Cmd::Replicate` arm of `handle_req_resp_events` never compared the two, so a far
+peer could send `Replicate{holder = <a close peer>}` and have the node queue fetches from — and later report as failed —
+that honest close peer (reproduced on the real code; `unguarded_arm_hears_far_sender_witness` is the model's view of it).
+The arm now hands a list on only `if holder.as_peer_id() == Some(peer)`; rs2lean reads that shape two-sidedly
+(`replicateChecksSender`, `replicateSenderMustEqual`), the model's `armActs` is instantiated with what it read. -/
+
+/-- generated: the arm compares the holder field with the sending peer, with `==` (breaks if the guard is dropped or
+its operator flipped) -/
+theorem sender_guard_present : replicateChecksSender = true ∧ replicateSenderMustEqual = true := ⟨rfl, rfl⟩
+
+/-- the arm hands a list on exactly when its holder field names the peer it came from -/
+theorem armActs_iff (src holder : Nat) : armActs src holder = true ↔ holder = src := by
+  simp [armActs, armActsWith, replicateChecksSender, replicateSenderMustEqual]
+
+/-- **A node acts on advertisements only from peers among its closest — the peer being the SENDER.** In any state `s`
+(so: after any schedule), delivering a `Replicate` request that was sent by a peer outside the receiver's `K_VALUE`
+closest (self included in the count), or by the receiver itself, changes no node, schedules nothing and puts nothing on
+the wire — whatever the `holder` field of the message claims and whatever the key list and the choice witness are. -/
+theorem only_close_sender_heard (w : World) (s : Sys) (m src dst holder : Nat) (keys : List (Nat × Nat))
+    (choice : List Entry) (hm : s.msg m = some (.rep src dst holder keys))
+    (hfar : src ∉ closestK w dst ∨ src = dst) :
+    (step w s (.deliver m choice)).1.nodes = s.nodes ∧
+    (step w s (.deliver m choice)).1.wire = (s.unwire m).wire ∧
+    (step w s (.deliver m choice)).2.sched = [] ∧ (step w s (.deliver m choice)).2.newMsgs = [] := by
+  cases ha : armActs src holder with
+  | true =>
+    have := (armActs_iff src holder).1 ha
+    subst this
+    exact only_close_holders_heard_sys w s m holder dst holder keys choice hm hfar
+  | false =>
+    simp [step, hm, deliverRep, deliverRepWith, ha, Sys.unwire]
+
+/-- the same read forwards: a list that gets anything scheduled names its own sender as holder, and that sender is among
+the receiver's `K_VALUE` closest and is not the receiver -/
+theorem acted_list_names_its_close_sender (w : World) (s : Sys) (m src dst holder : Nat) (keys : List (Nat × Nat))
+    (choice : List Entry) (hm : s.msg m = some (.rep src dst holder keys))
+    (hact : (step w s (.deliver m choice)).2.sched ≠ []) :
+    holder = src ∧ src ∈ closestK w dst ∧ src ≠ dst := by
+  have hs : holder = src := by
+    cases ha : armActs src holder with
+    | true => exact (armActs_iff src holder).1 ha
+    | false =>
+      exfalso; apply hact
+      simp [step, hm, deliverRep, deliverRepWith, ha]
+  refine ⟨hs, ?_⟩
+  by_cases hfar : src ∉ closestK w dst ∨ src = dst
+  · exact absurd (only_close_sender_heard w s m src dst holder keys choice hm hfar).2.2.1 hact
+  · simp only [not_or, Decidable.not_not] at hfar
+    exact hfar
+
+/-- **For every schedule**: from fresh nodes, after any sequence of uploads, ticks, periodic replications, forged and
+spoofed lists, deliveries in any order, duplications and drops, a `Replicate` request on the wire whose sender is not
+among the receiver's closest is without effect when delivered. -/
+theorem only_close_sender_heard_always (w : World) (n : Nat) (ops : List Op) (m src dst holder : Nat)
+    (keys : List (Nat × Nat)) (choice : List Entry)
+    (hm : (run w (init n) ops).msg m = some (.rep src dst holder keys))
+    (hfar : src ∉ closestK w dst ∨ src = dst) :
+    let s := run w (init n) ops
+    (step w s (.deliver m choice)).1.nodes = s.nodes ∧ (step w s (.deliver m choice)).2.sched = [] ∧
+    (step w s (.deliver m choice)).2.newMsgs = [] := by
+  intro s
+  obtain ⟨h1, _, h3, h4⟩ := only_close_sender_heard w s m src dst holder keys choice hm hfar
+  exact ⟨h1, h3, h4⟩
+
+/-- **Witness of the defect that was repaired** (model of the arm without the guard, `armActsWith false`): node 1 holds
+chunk 0; peer 28 — unknown to node 0, hence not among its closest — sends node 0 a list claiming node 1 as holder.
+Without the guard node 0 schedules the fetch from node 1; with the guard as generated from today's source the same
+delivery does nothing. (Real code, before the repair: `spoof 1061 1 0 0=C ; deliver 1` ⇒ `rep sched=1:0:C`.) -/
+theorem unguarded_arm_hears_far_sender_witness :
+    let s0 := run padWorld (init 2) [.seed 1 0 .chunk [], .spoof 28 1 0 [(0, 0)]]
+    28 ∉ closestK padWorld 0 ∧ s0.wire.map (·.1) = [1] ∧
+    (deliverRepWith (armActsWith false true 28 1) padWorld (s0.unwire 1) 0 1 [(0, 0)] [⟨0, 0, 1, 0⟩]).2.sched.map
+      (fun e => (e.holder, e.key)) = [(1, 0)] ∧
+    (step padWorld s0 (.deliver 1 [])).2.sched = [] ∧
+    ((step padWorld s0 (.deliver 1 [])).1.node 0).fetcher.ogf = [] ∧
+    ((step padWorld s0 (.deliver 1 [])).1.node 0).fetcher.tbf = [] ∧ (step padWorld s0 (.deliver 1 [])).1.wire = [] := by
+  decide
+
+/-- non-vacuity of `acted_list_names_its_close_sender`: the honest list (node 1 names itself) is acted on -/
+example :
+    let s0 := run padWorld (init 2) [.seed 1 0 .chunk [], .forge 1 0 [(0, 0)]]
+    (step padWorld s0 (.deliver 1 [⟨0, 0, 1, 0⟩])).2.sched.map (fun e => (e.holder, e.key)) = [(1, 0)] := by
+  decide
 
 /-! ## retry after a lost fetch -/
 
@@ -978,6 +1074,13 @@ theorem step_allHeard (w : World) (s : Sys) (op : Op) (h : AllHeard w s) : AllHe
     · have := allHeard_update w s dst (s.node dst) [Msg.rep src dst src keys] h (h.1 dst)
         (by intro m hm a b c he; rw [List.mem_singleton.1 hm] at he; cases he)
       simpa [Sys.setNode, Sys.node, set_getD_self] using this
+  | spoof src holder dst keys =>
+    simp only [step]
+    split
+    · exact h
+    · have := allHeard_update w s dst (s.node dst) [Msg.rep src dst holder keys] h (h.1 dst)
+        (by intro m hm a b c he; rw [List.mem_singleton.1 hm] at he; cases he)
+      simpa [Sys.setNode, Sys.node, set_getD_self] using this
   | dup m =>
     simp only [step]
     split
@@ -998,8 +1101,11 @@ theorem step_allHeard (w : World) (s : Sys) (op : Op) (h : AllHeard w s) : AllHe
     split
     · rename_i a dst holder keys _
       have hu := allHeard_unwire w s m h
-      obtain ⟨h1, h2⟩ := nodeRep_holders w dst ((s.unwire m).node dst) holder keys choice (hu.1 dst)
-      exact allHeard_update w (s.unwire m) dst _ _ hu h1 (fetchMsgs_heard w dst _ h2)
+      simp only [deliverRep, deliverRepWith]
+      split
+      · exact hu
+      · obtain ⟨h1, h2⟩ := nodeRep_holders w dst ((s.unwire m).node dst) holder keys choice (hu.1 dst)
+        exact allHeard_update w (s.unwire m) dst _ _ hu h1 (fetchMsgs_heard w dst _ h2)
     · rename_i src dst key _
       split
       · have hu := allHeard_unwire w s m h
@@ -1149,6 +1255,413 @@ theorem chunkValid : Valid padWorld chunkNodes chunkSched := by
 example : (runXs padWorld chunkNodes chunkSched 1).store.get 0 = some .chunk ∧
     (runXs padWorld chunkNodes chunkSched 1).store.get 3 = some .chunk := by decide
 
+
+/-! ## beyond the FairRound restrictions: advertisements of any size, several in flight, replies in any order
+
+`Proofs/ReplicationPhases.lean` replaces the atomic exchange by a *phase* at one requester: an arbitrary interleaving
+of `Replicate` lists (each with any number of new keys) and of the replies to the scheduled fetches, the reply to
+process being picked freely among the outstanding ones. A reply that is stored runs the real path `PutLocalRecord` →
+`notify_about_new_put` → `next_keys_to_fetch`, which schedules the next closest queued keys (C08 `batch_cap`,
+`closest_first`): an advertisement of more than MAX_PARALLEL_FETCH keys is worked off batch by batch inside one exchange.
+`PInv` (fetcher side: every in-flight entry is a timed-out leftover, awaits its reply, or its copy changed nothing; every
+queued entry waits only because the limit is reached — data side: every advertiser's version is absorbed, being fetched, or
+queued) is preserved by every event. -/
+
+open SafeNet.Replication.Abs in
+/-- **(a) Transaction sets: an advertisement of ANY size is one complete exchange.** `dst`'s fetcher is quiet; `src`
+advertises its index — `n` new keys, no bound on `n`; at least `n` reply deliveries follow, each processing *some*
+outstanding reply (any order); per-event FairRound hypotheses (`PhaseOk`: heard, legal choice witnesses, keys in range, no
+timed-out fetch from `src` / of an advertised version registered). Missing for the unconditional statement
+(`BigAdvertAlwaysDrains`, false: `big_advert_stall_witness`): `hroom` — fewer than MAX_PARALLEL_FETCH fetches are left in
+flight when the last reply has been processed, i.e. fewer than that many fetched copies changed nothing at `dst` (such a
+fetch keeps its slot until FETCH_TIMEOUT — the F-g side effect). Then: no reply is outstanding (bound: `n` replies), the
+queue is drained, and for EVERY transaction key `k` the requester holds the join of the two versions. -/
+theorem big_advert_converge_partial_txs (w : World) (dst src : Nat) (nodes : Nat → NodeSt) (k : Nat) (hk : k % 3 = 1)
+    (hwf : ∀ i, StoreWF (nodes i).store) (hkey : ∀ i, TxKey k (nodes i)) (hq : StaleQuiet (nodes dst).fetcher)
+    (c : List Entry) (rsps : List Ev) (hr : ∀ ev ∈ rsps, ev.isRsp = true)
+    (hlen : ((indexOf (nodes src).store).filter
+      (admits (w.kdist dst) (nodes dst).fetcher (indexOf (nodes dst).store) src)).length ≤ rsps.length)
+    (hok : PhaseOk w dst nodes ⟨nodes dst, [], []⟩ (.adv src c :: rsps))
+    (hroom : (runEvs w dst nodes ⟨nodes dst, [], []⟩ (.adv src c :: rsps)).nd.fetcher.ogf.length <
+      SafeNet.Gen.Fetcher.maxParallelFetch) :
+    let fin := runEvs w dst nodes ⟨nodes dst, [], []⟩ (.adv src c :: rsps)
+    fin.pending = [] ∧ fin.nd.fetcher.tbf = [] ∧
+    verTx (fin.nd.store.get k) = join (verTx ((nodes src).store.get k)) (verTx ((nodes dst).store.get k)) ∧
+    TxKey k fin.nd :=
+  cascade_join w dst nodes k verTx OkTx (lawTx k hk) hwf hkey hq src c rsps hr hlen hok hroom
+
+open SafeNet.Replication.Abs in
+/-- **(a) Registers**: the same for the versions of a register with base `alt`. -/
+theorem big_advert_converge_partial_reg (w : World) (dst src : Nat) (nodes : Nat → NodeSt) (alt : Bool) (k : Nat)
+    (hk : k % 3 = 2)
+    (hwf : ∀ i, StoreWF (nodes i).store) (hkey : ∀ i, RegKey alt k (nodes i)) (hq : StaleQuiet (nodes dst).fetcher)
+    (c : List Entry) (rsps : List Ev) (hr : ∀ ev ∈ rsps, ev.isRsp = true)
+    (hlen : ((indexOf (nodes src).store).filter
+      (admits (w.kdist dst) (nodes dst).fetcher (indexOf (nodes dst).store) src)).length ≤ rsps.length)
+    (hok : PhaseOk w dst nodes ⟨nodes dst, [], []⟩ (.adv src c :: rsps))
+    (hroom : (runEvs w dst nodes ⟨nodes dst, [], []⟩ (.adv src c :: rsps)).nd.fetcher.ogf.length <
+      SafeNet.Gen.Fetcher.maxParallelFetch) :
+    let fin := runEvs w dst nodes ⟨nodes dst, [], []⟩ (.adv src c :: rsps)
+    fin.pending = [] ∧ fin.nd.fetcher.tbf = [] ∧
+    verReg alt (fin.nd.store.get k) =
+      join (verReg alt ((nodes src).store.get k)) (verReg alt ((nodes dst).store.get k)) ∧
+    RegKey alt k fin.nd :=
+  cascade_join w dst nodes k (verReg alt) (OkReg alt) (lawReg alt k hk) hwf hkey hq src c rsps hr hlen hok hroom
+
+/-- **(a) Immutable data**: after an advertisement of any size the requester holds the chunk `k` iff one of the two did
+(the copy is the holder's: a chunk is determined by its key). -/
+theorem big_advert_replicates_partial_chunk (w : World) (dst src : Nat) (nodes : Nat → NodeSt) (k : Nat) (hk : k % 3 = 0)
+    (hwf : ∀ i, StoreWF (nodes i).store) (hkey : ∀ i, ChunkKey k (nodes i)) (hq : StaleQuiet (nodes dst).fetcher)
+    (c : List Entry) (rsps : List Ev) (hr : ∀ ev ∈ rsps, ev.isRsp = true)
+    (hlen : ((indexOf (nodes src).store).filter
+      (admits (w.kdist dst) (nodes dst).fetcher (indexOf (nodes dst).store) src)).length ≤ rsps.length)
+    (hok : PhaseOk w dst nodes ⟨nodes dst, [], []⟩ (.adv src c :: rsps))
+    (hroom : (runEvs w dst nodes ⟨nodes dst, [], []⟩ (.adv src c :: rsps)).nd.fetcher.ogf.length <
+      SafeNet.Gen.Fetcher.maxParallelFetch) :
+    let fin := runEvs w dst nodes ⟨nodes dst, [], []⟩ (.adv src c :: rsps)
+    (fin.nd.store.get k = some .chunk ↔
+      ((nodes src).store.get k = some .chunk ∨ (nodes dst).store.get k = some .chunk)) := by
+  intro fin
+  obtain ⟨_, _, hj, hko⟩ := cascade_join w dst nodes k verChunk OkChunk (lawChunk k hk) hwf hkey hq src c rsps hr hlen hok hroom
+  have hsome : ∀ v, OkChunk v → (v = some .chunk ↔ (verChunk v).isSome = true) := by
+    intro v hv
+    rcases hv with rfl | rfl <;> simp [verChunk]
+  rw [hsome _ hko, hj, SafeNet.Replication.Abs.isSome_join, Bool.or_eq_true, ← hsome _ (hkey src), ← hsome _ (hkey dst)]
+
+/-- **The bound**: `n` new keys take at most `n` reply deliveries — every reply strictly decreases
+"outstanding + queued" (`evStep_rsp_measure`), whatever it contains and whatever batch the fetcher returns; all of it inside
+ONE exchange of the ordered pair (the fair-round bound of `mutable_converge_*` stays 1, 2 with voided exchanges). At no time
+are more than MAX_PARALLEL_FETCH fetches in flight beyond the single-key fast path (C08 `batch_cap_all_ops`). -/
+theorem big_advert_replies_bound (w : World) (dst src : Nat) (nodes : Nat → NodeSt)
+    (hq : StaleQuiet (nodes dst).fetcher) (c : List Entry) (rsps : List Ev) (hr : ∀ ev ∈ rsps, ev.isRsp = true)
+    (hheard : heard w dst src = true)
+    (hlen : ((indexOf (nodes src).store).filter
+      (admits (w.kdist dst) (nodes dst).fetcher (indexOf (nodes dst).store) src)).length ≤ rsps.length) :
+    (runEvs w dst nodes ⟨nodes dst, [], []⟩ (.adv src c :: rsps)).pending = [] := by
+  obtain ⟨e1, _, e3, _⟩ := evStep_adv_eq w dst nodes ⟨nodes dst, [], []⟩ src c hheard
+  apply replies_bound w dst nodes rsps _ hr
+  have := Ph.add_measure (w.kdist dst) (nodes dst).fetcher src (indexOf (nodes src).store) (indexOf (nodes dst).store) c
+  simp only [Rq.mu, e1, e3, List.nil_append]
+  rw [hq.1] at this
+  simp only [List.length_nil, Nat.zero_add] at this
+  omega
+
+/-- the (a)-statement without `hroom`: whatever the fetched copies do, the queue of one advertisement drains -/
+def BigAdvertAlwaysDrains : Prop :=
+  ∀ (w : World) (dst src : Nat) (nodes : Nat → NodeSt) (c : List Entry) (rsps : List Ev),
+    (∀ i, StoreWF (nodes i).store) → StaleQuiet (nodes dst).fetcher → (∀ ev ∈ rsps, ev.isRsp = true) →
+    ((indexOf (nodes src).store).filter
+      (admits (w.kdist dst) (nodes dst).fetcher (indexOf (nodes dst).store) src)).length ≤ rsps.length →
+    PhaseOk w dst nodes ⟨nodes dst, [], []⟩ (.adv src c :: rsps) →
+    (runEvs w dst nodes ⟨nodes dst, [], []⟩ (.adv src c :: rsps)).nd.fetcher.tbf = []
+
+/-- distance = key number, two mutually close nodes -/
+def lineWorld : World := { n := 2, rt := fun i => if i = 0 then [1] else [0], pdist := fun _ _ => 5, kdist := fun _ k => k }
+def ent (h : Nat) (c : Content) (k : Nat) : Entry := ⟨k, tyOf c, h, 0⟩
+
+def stKeys : List Nat := (List.range 21).map (fun i => 3 * i + 2)
+/-- node 0 holds version `[0]` of 21 registers; node 1 holds the superset `[0, 1]` of the 20 closest and the diverging
+version `[1]` of the farthest one -/
+def stNodes : Nat → NodeSt := fun i =>
+  if i = 0 then { store := stKeys.map (fun k => (k, Content.reg false [0])) }
+  else { store := (stKeys.take 20).map (fun k => (k, Content.reg false [0, 1])) ++ [(62, .reg false [1])] }
+def stEvs : List Ev := .adv 0 ((stKeys.take 20).map (ent 0 (.reg false [0]))) :: List.replicate 21 (.rsp 0 [])
+
+/-- **Why `hroom` is needed (the F-g side effect at scale).** Node 0 advertises 21 registers to node 1; the 20 closest
+are fetched first and every one of those copies merges to nothing, so no `notify_about_new_put` runs and all 20 slots
+stay occupied until FETCH_TIMEOUT: every hypothesis except `hroom` holds, no reply is outstanding, yet the 21st register
+— the only real difference — is still queued and node 1 still holds its own version. (It is not lost: after FETCH_TIMEOUT
+the next list from node 0 is void and empties the fetcher, `void_exchange_quiets`; the exchange 1 → 0 removes the 20
+no-op keys from later lists.) -/
+theorem big_advert_stall_witness :
+    phaseOkB lineWorld 1 stNodes ⟨stNodes 1, [], []⟩ stEvs = true ∧
+    (runEvs lineWorld 1 stNodes ⟨stNodes 1, [], []⟩ stEvs).pending = [] ∧
+    (runEvs lineWorld 1 stNodes ⟨stNodes 1, [], []⟩ stEvs).nd.fetcher.ogf.length = 20 ∧
+    (runEvs lineWorld 1 stNodes ⟨stNodes 1, [], []⟩ stEvs).nd.fetcher.tbf.map (·.key) = [62] ∧
+    (runEvs lineWorld 1 stNodes ⟨stNodes 1, [], []⟩ stEvs).nd.store.get 62 = some (.reg false [1]) := by
+  set_option maxRecDepth 100000 in decide
+
+theorem big_advert_always_drains_is_false : ¬ BigAdvertAlwaysDrains := by
+  intro h
+  have hw := big_advert_stall_witness
+  have := h lineWorld 1 0 stNodes ((stKeys.take 20).map (ent 0 (.reg false [0]))) (List.replicate 21 (.rsp 0 []))
+    (by intro i; unfold stNodes StoreWF; split <;> decide)
+    ⟨rfl, rfl, fun e he => by cases he⟩
+    (by decide) (by decide) (phaseOkB_sound hw.1)
+  have h2 := hw.2.2.2.1
+  rw [show (runEvs lineWorld 1 stNodes ⟨stNodes 1, [], []⟩ stEvs) =
+    runEvs lineWorld 1 stNodes ⟨stNodes 1, [], []⟩
+      (.adv 0 ((stKeys.take 20).map (ent 0 (.reg false [0]))) :: List.replicate 21 (.rsp 0 [])) from rfl, this] at h2
+  cases h2
+
+open SafeNet.Replication.Abs in
+/-- **(b) Several advertisements in flight at one requester: the interleaving does not matter (transaction sets).**
+`evs` is ANY interleaving of advertisements from any number of sources and of reply deliveries (any order; a reply may
+arrive after a later `put` has already dropped its in-flight entry, a version may be queued behind an in-flight fetch of the
+same version from another holder, …) meeting the per-event hypotheses. Once no reply is outstanding and the queue is
+drained (or fewer than MAX_PARALLEL_FETCH fetches are left in flight), the requester's version of every transaction key is
+exactly what the SERIALISED schedule of complete exchanges `s₁ → dst, s₂ → dst, …` (`Abs.runX`) leaves: the join. -/
+theorem concurrent_adverts_serial_txs (w : World) (dst : Nat) (nodes : Nat → NodeSt) (k : Nat) (hk : k % 3 = 1)
+    (hwf : ∀ i, StoreWF (nodes i).store) (hkey : ∀ i, TxKey k (nodes i)) (hq : StaleQuiet (nodes dst).fetcher)
+    (evs : List Ev) (hok : PhaseOk w dst nodes ⟨nodes dst, [], []⟩ evs)
+    (hp : (runEvs w dst nodes ⟨nodes dst, [], []⟩ evs).pending = [])
+    (hdr : (runEvs w dst nodes ⟨nodes dst, [], []⟩ evs).nd.fetcher.tbf = [] ∨
+      (runEvs w dst nodes ⟨nodes dst, [], []⟩ evs).nd.fetcher.ogf.length < SafeNet.Gen.Fetcher.maxParallelFetch) :
+    verTx ((runEvs w dst nodes ⟨nodes dst, [], []⟩ evs).nd.store.get k) =
+      runX (fun j => verTx ((nodes j).store.get k)) ((advSrcs evs).map (fun s => (s, dst))) dst ∧
+    TxKey k (runEvs w dst nodes ⟨nodes dst, [], []⟩ evs).nd :=
+  ⟨phase_is_serial w dst nodes k verTx OkTx (lawTx k hk) hwf hkey hq evs hok hp hdr,
+   (phase_join w dst nodes k verTx OkTx (lawTx k hk) hwf hkey hq evs hok hp hdr).2⟩
+
+open SafeNet.Replication.Abs in
+/-- **(b) Registers.** -/
+theorem concurrent_adverts_serial_reg (w : World) (dst : Nat) (nodes : Nat → NodeSt) (alt : Bool) (k : Nat)
+    (hk : k % 3 = 2)
+    (hwf : ∀ i, StoreWF (nodes i).store) (hkey : ∀ i, RegKey alt k (nodes i)) (hq : StaleQuiet (nodes dst).fetcher)
+    (evs : List Ev) (hok : PhaseOk w dst nodes ⟨nodes dst, [], []⟩ evs)
+    (hp : (runEvs w dst nodes ⟨nodes dst, [], []⟩ evs).pending = [])
+    (hdr : (runEvs w dst nodes ⟨nodes dst, [], []⟩ evs).nd.fetcher.tbf = [] ∨
+      (runEvs w dst nodes ⟨nodes dst, [], []⟩ evs).nd.fetcher.ogf.length < SafeNet.Gen.Fetcher.maxParallelFetch) :
+    verReg alt ((runEvs w dst nodes ⟨nodes dst, [], []⟩ evs).nd.store.get k) =
+      runX (fun j => verReg alt ((nodes j).store.get k)) ((advSrcs evs).map (fun s => (s, dst))) dst ∧
+    RegKey alt k (runEvs w dst nodes ⟨nodes dst, [], []⟩ evs).nd :=
+  ⟨phase_is_serial w dst nodes k (verReg alt) (OkReg alt) (lawReg alt k hk) hwf hkey hq evs hok hp hdr,
+   (phase_join w dst nodes k (verReg alt) (OkReg alt) (lawReg alt k hk) hwf hkey hq evs hok hp hdr).2⟩
+
+open SafeNet.Replication.Abs in
+/-- **(b) Chunks.** -/
+theorem concurrent_adverts_serial_chunk (w : World) (dst : Nat) (nodes : Nat → NodeSt) (k : Nat) (hk : k % 3 = 0)
+    (hwf : ∀ i, StoreWF (nodes i).store) (hkey : ∀ i, ChunkKey k (nodes i)) (hq : StaleQuiet (nodes dst).fetcher)
+    (evs : List Ev) (hok : PhaseOk w dst nodes ⟨nodes dst, [], []⟩ evs)
+    (hp : (runEvs w dst nodes ⟨nodes dst, [], []⟩ evs).pending = [])
+    (hdr : (runEvs w dst nodes ⟨nodes dst, [], []⟩ evs).nd.fetcher.tbf = [] ∨
+      (runEvs w dst nodes ⟨nodes dst, [], []⟩ evs).nd.fetcher.ogf.length < SafeNet.Gen.Fetcher.maxParallelFetch) :
+    verChunk ((runEvs w dst nodes ⟨nodes dst, [], []⟩ evs).nd.store.get k) =
+      runX (fun j => verChunk ((nodes j).store.get k)) ((advSrcs evs).map (fun s => (s, dst))) dst ∧
+    ChunkKey k (runEvs w dst nodes ⟨nodes dst, [], []⟩ evs).nd :=
+  ⟨phase_is_serial w dst nodes k verChunk OkChunk (lawChunk k hk) hwf hkey hq evs hok hp hdr,
+   (phase_join w dst nodes k verChunk OkChunk (lawChunk k hk) hwf hkey hq evs hok hp hdr).2⟩
+
+open SafeNet.Replication.Abs in
+/-- **(c) Transaction sets converge — `n` nodes, schedules of phases.** As `mutable_converge_txs`, with `ValidP` in
+place of `Valid`: every phase is an arbitrary interleaving at one requester (advertisements of any size, any number of
+them in flight together, replies in any order), lasts until no reply is outstanding and the queue is drained, and is
+followed by FETCH_TIMEOUT at the requester; `Covers`: the schedule contains an advertisement for every ordered pair — one
+fair round. Then all `n` nodes hold the same content under `k`, its members are exactly the transactions held anywhere at
+the start, every fetcher is quiet again and the ranking function is 0. -/
+theorem mutable_converge_txs_phases (w : World) (n k : Nat) (nodes : Nat → NodeSt) (phs : List Phase) (hk : k % 3 = 1)
+    (hq : ∀ i, StaleQuiet (nodes i).fetcher) (hwf : ∀ i, StoreWF (nodes i).store) (hkey : ∀ i, TxKey k (nodes i))
+    (hv : ValidP w nodes phs) (hin : ∀ p ∈ pairsOf phs, p.1 < n ∧ p.2 < n) (hcov : Covers n (pairsOf phs)) :
+    let fin := runPs w nodes phs
+    (∀ x y, x < n → y < n → (fin x).store.get k = (fin y).store.get k) ∧
+    (∀ x m, x < n → (memV m (verTx ((fin x).store.get k)) ↔ ∃ y, y < n ∧ memV m (verTx ((nodes y).store.get k)))) ∧
+    (∀ i, StaleQuiet (fin i).fetcher) ∧
+    (∀ x0, x0 < n → measure n (fun i => verTx ((fin i).store.get k)) (verTx ((fin x0).store.get k)) = 0) := by
+  intro fin
+  obtain ⟨r1, r2, r3, _⟩ := runPs_refines w k verTx OkTx (lawTx k hk) phs nodes hq hwf hkey hv
+  have hc : ∀ i, CanonV ((fun j => verTx ((nodes j).store.get k)) i) := by
+    intro i l hl
+    rcases hkey i with h | ⟨l', h, hcl, _⟩
+    · simp [h, verTx] at hl
+    · simp only [h, verTx, Option.some.injEq] at hl; rw [← hl]; exact hcl
+  obtain ⟨a1, _, a3⟩ := abs_converge n _ _ hc hin hcov
+  refine ⟨?_, ?_, r3, ?_⟩
+  · intro x y hx hy
+    exact txKey_ext (r2 x) (r2 y) (by rw [r1 x, r1 y]; exact a3 x y hx hy)
+  · intro x m hx
+    rw [r1 x]; exact a1 x m hx
+  · intro x0 hx0
+    have := (measure_zero n _ _ hc hin hcov x0 hx0).1
+    have hf : (fun i => verTx ((fin i).store.get k)) =
+        runX (fun j => verTx ((nodes j).store.get k)) (pairsOf phs) := by
+      funext i; exact r1 i
+    rw [hf, r1 x0]; exact this
+
+open SafeNet.Replication.Abs in
+/-- **(c) Registers converge — `n` nodes, schedules of phases.** -/
+theorem mutable_converge_reg_phases (w : World) (n k : Nat) (alt : Bool) (nodes : Nat → NodeSt) (phs : List Phase)
+    (hk : k % 3 = 2)
+    (hq : ∀ i, StaleQuiet (nodes i).fetcher) (hwf : ∀ i, StoreWF (nodes i).store) (hkey : ∀ i, RegKey alt k (nodes i))
+    (hv : ValidP w nodes phs) (hin : ∀ p ∈ pairsOf phs, p.1 < n ∧ p.2 < n) (hcov : Covers n (pairsOf phs)) :
+    let fin := runPs w nodes phs
+    (∀ x y, x < n → y < n → (fin x).store.get k = (fin y).store.get k) ∧
+    (∀ x m, x < n → (memV m (verReg alt ((fin x).store.get k)) ↔
+      ∃ y, y < n ∧ memV m (verReg alt ((nodes y).store.get k)))) ∧
+    (∀ i, StaleQuiet (fin i).fetcher) ∧
+    (∀ x0, x0 < n → measure n (fun i => verReg alt ((fin i).store.get k)) (verReg alt ((fin x0).store.get k)) = 0) := by
+  intro fin
+  obtain ⟨r1, r2, r3, _⟩ := runPs_refines w k (verReg alt) (OkReg alt) (lawReg alt k hk) phs nodes hq hwf hkey hv
+  have hc : ∀ i, CanonV ((fun j => verReg alt ((nodes j).store.get k)) i) := by
+    intro i l hl
+    rcases hkey i with h | ⟨l', h, hcl⟩
+    · simp [h, verReg] at hl
+    · simp only [h, verReg, if_true, Option.some.injEq] at hl; rw [← hl]; exact hcl
+  obtain ⟨a1, _, a3⟩ := abs_converge n _ _ hc hin hcov
+  refine ⟨?_, ?_, r3, ?_⟩
+  · intro x y hx hy
+    exact regKey_ext (r2 x) (r2 y) (by rw [r1 x, r1 y]; exact a3 x y hx hy)
+  · intro x m hx
+    rw [r1 x]; exact a1 x m hx
+  · intro x0 hx0
+    have := (measure_zero n _ _ hc hin hcov x0 hx0).1
+    have hf : (fun i => verReg alt ((fin i).store.get k)) =
+        runX (fun j => verReg alt ((nodes j).store.get k)) (pairsOf phs) := by
+      funext i; exact r1 i
+    rw [hf, r1 x0]; exact this
+
+open SafeNet.Replication.Abs in
+/-- **(c) Immutable data reaches every neighbour — `n` nodes, schedules of phases**: byte-identical copies (a chunk is
+determined by its key) at every one of the `n` neighbours iff any of them held it, after one fair round of phases. -/
+theorem immutable_converge_phases (w : World) (n k : Nat) (nodes : Nat → NodeSt) (phs : List Phase) (hk : k % 3 = 0)
+    (hq : ∀ i, StaleQuiet (nodes i).fetcher) (hwf : ∀ i, StoreWF (nodes i).store) (hkey : ∀ i, ChunkKey k (nodes i))
+    (hv : ValidP w nodes phs) (hin : ∀ p ∈ pairsOf phs, p.1 < n ∧ p.2 < n) (hcov : Covers n (pairsOf phs)) :
+    let fin := runPs w nodes phs
+    (∀ x, x < n → ((fin x).store.get k = some .chunk ↔ ∃ y, y < n ∧ (nodes y).store.get k = some .chunk)) ∧
+    (∀ i, StaleQuiet (fin i).fetcher) := by
+  intro fin
+  obtain ⟨r1, r2, r3, _⟩ := runPs_refines w k verChunk OkChunk (lawChunk k hk) phs nodes hq hwf hkey hv
+  have hc : ∀ i, CanonV ((fun j => verChunk ((nodes j).store.get k)) i) := by
+    intro i l hl
+    rcases hkey i with h | h
+    · simp [h, verChunk] at hl
+    · simp only [h, verChunk, Option.some.injEq] at hl; rw [← hl]; trivial
+  obtain ⟨_, a2, _⟩ := abs_converge n _ _ hc hin hcov
+  refine ⟨?_, r3⟩
+  intro x hx
+  have := a2 x hx
+  rw [← r1 x] at this
+  constructor
+  · intro h
+    obtain ⟨y, hy, hs⟩ := this.1 (by rw [h]; rfl)
+    exact ⟨y, hy, chunkKey_some (hkey y) hs⟩
+  · rintro ⟨y, hy, hs⟩
+    exact chunkKey_some (r2 x) (this.2 ⟨y, hy, by rw [hs]; rfl⟩)
+
+open SafeNet.Replication.Abs in
+/-- **(a) for `mutable_converge_txs`-style histories: no bound on the number of keys.** `xs` is any schedule of complete
+exchanges among `n` neighbours, each an advertisement of ANY size followed by its replies in any order; `ValidBig` = the
+FairRound hypotheses of `Valid` with the bound "fewer than MAX_PARALLEL_FETCH advertised records" replaced by "fewer than
+MAX_PARALLEL_FETCH fetches left in flight at the end of the exchange", at least as many reply deliveries as new keys, and
+no assumption on the reply order. One fair round (`Covers`) leaves every node with the union of all versions. -/
+theorem mutable_converge_txs_big (w : World) (n k : Nat) (nodes : Nat → NodeSt) (xs : List BigXch) (hk : k % 3 = 1)
+    (hq : ∀ i, StaleQuiet (nodes i).fetcher) (hwf : ∀ i, StoreWF (nodes i).store) (hkey : ∀ i, TxKey k (nodes i))
+    (hv : ValidBig w nodes xs) (hin : ∀ x ∈ xs, x.src < n ∧ x.dst < n)
+    (hcov : Covers n (xs.map (fun x => (x.src, x.dst)))) :
+    let fin := runPs w nodes (xs.map BigXch.phase)
+    (∀ x y, x < n → y < n → (fin x).store.get k = (fin y).store.get k) ∧
+    (∀ x m, x < n → (memV m (verTx ((fin x).store.get k)) ↔ ∃ y, y < n ∧ memV m (verTx ((nodes y).store.get k)))) ∧
+    (∀ i, StaleQuiet (fin i).fetcher) ∧
+    (∀ x0, x0 < n → measure n (fun i => verTx ((fin i).store.get k)) (verTx ((fin x0).store.get k)) = 0) := by
+  have hp := pairsOf_big xs (validBig_rsps w xs nodes hv)
+  apply mutable_converge_txs_phases w n k nodes _ hk hq hwf hkey (validP_of_big w xs nodes hq hwf hv)
+  · intro p hpm
+    rw [hp] at hpm
+    obtain ⟨x, hx, rfl⟩ := List.mem_map.1 hpm
+    exact hin x hx
+  · rw [hp]; exact hcov
+
+open SafeNet.Replication.Abs in
+/-- **(a) for `mutable_converge_reg`-style histories: no bound on the number of keys.** -/
+theorem mutable_converge_reg_big (w : World) (n k : Nat) (alt : Bool) (nodes : Nat → NodeSt) (xs : List BigXch)
+    (hk : k % 3 = 2)
+    (hq : ∀ i, StaleQuiet (nodes i).fetcher) (hwf : ∀ i, StoreWF (nodes i).store) (hkey : ∀ i, RegKey alt k (nodes i))
+    (hv : ValidBig w nodes xs) (hin : ∀ x ∈ xs, x.src < n ∧ x.dst < n)
+    (hcov : Covers n (xs.map (fun x => (x.src, x.dst)))) :
+    let fin := runPs w nodes (xs.map BigXch.phase)
+    (∀ x y, x < n → y < n → (fin x).store.get k = (fin y).store.get k) ∧
+    (∀ x m, x < n → (memV m (verReg alt ((fin x).store.get k)) ↔
+      ∃ y, y < n ∧ memV m (verReg alt ((nodes y).store.get k)))) ∧
+    (∀ i, StaleQuiet (fin i).fetcher) ∧
+    (∀ x0, x0 < n → measure n (fun i => verReg alt ((fin i).store.get k)) (verReg alt ((fin x0).store.get k)) = 0) := by
+  have hp := pairsOf_big xs (validBig_rsps w xs nodes hv)
+  apply mutable_converge_reg_phases w n k alt nodes _ hk hq hwf hkey (validP_of_big w xs nodes hq hwf hv)
+  · intro p hpm
+    rw [hp] at hpm
+    obtain ⟨x, hx, rfl⟩ := List.mem_map.1 hpm
+    exact hin x hx
+  · rw [hp]; exact hcov
+
+/-! ### non-vacuity of the phase theorems -/
+
+def bigKeys : List Nat := (List.range 22).map (fun i => 3 * i + 1)
+/-- two nodes, 22 transaction sets (more than MAX_PARALLEL_FETCH), every one diverging: `[0]` at node 0, `[1]` at node 1 -/
+def bigNodes : Nat → NodeSt := fun i =>
+  if i = 0 then { store := bigKeys.map (fun k => (k, Content.txs [0])) }
+  else { store := bigKeys.map (fun k => (k, Content.txs [1])) }
+/-- 0 → 1: the 20 closest keys are the first batch; the first two stored replies each schedule one of the two keys left
+in the queue; 22 replies in all. Then 1 → 0 likewise with the merged versions. -/
+def bigSched : List BigXch :=
+  [⟨0, 1, (bigKeys.take 20).map (ent 0 (.txs [0])),
+     [.rsp 0 [ent 0 (.txs [0]) 61], .rsp 0 [ent 0 (.txs [0]) 64]] ++ List.replicate 20 (.rsp 0 []), 20⟩,
+   ⟨1, 0, (bigKeys.take 20).map (ent 1 (.txs [0, 1])),
+     [.rsp 0 [ent 1 (.txs [0, 1]) 61], .rsp 0 [ent 1 (.txs [0, 1]) 64]] ++ List.replicate 20 (.rsp 0 []), 20⟩]
+
+/-- every hypothesis of `mutable_converge_txs_big` / `big_advert_converge_partial_txs` holds for the 22-key round (the
+executable checks `phaseOkB` / `validPB` are sound: `phaseOkB_sound`, `validPB_sound`), nothing is left in flight, and
+all 22 keys end as `[0, 1]` at both nodes — including key 64, which is only fetched in the second batch -/
+theorem bigValid :
+    validPB lineWorld bigNodes (bigSched.map BigXch.phase) = true ∧
+    (runPhase lineWorld bigNodes ⟨1, .adv 0 ((bigKeys.take 20).map (ent 0 (.txs [0]))) ::
+        ([.rsp 0 [ent 0 (.txs [0]) 61], .rsp 0 [ent 0 (.txs [0]) 64]] ++ List.replicate 20 (.rsp 0 [])), 20⟩).nd.fetcher.ogf = [] ∧
+    ((indexOf (bigNodes 0).store).filter
+      (admits (lineWorld.kdist 1) (bigNodes 1).fetcher (indexOf (bigNodes 1).store) 0)).length = 22 ∧
+    (∀ k ∈ bigKeys, (runPs lineWorld bigNodes (bigSched.map BigXch.phase) 0).store.get k = some (.txs [0, 1]) ∧
+      (runPs lineWorld bigNodes (bigSched.map BigXch.phase) 1).store.get k = some (.txs [0, 1])) := by
+  set_option maxRecDepth 100000 in decide
+
+example : ValidP lineWorld bigNodes (bigSched.map BigXch.phase) ∧ (∀ i, StaleQuiet (bigNodes i).fetcher) ∧
+    (∀ i, StoreWF (bigNodes i).store) ∧ (∀ i, TxKey 64 (bigNodes i)) ∧
+    SafeNet.Replication.Abs.Covers 2 (pairsOf (bigSched.map BigXch.phase)) := by
+  refine ⟨validPB_sound bigValid.1, ?_, ?_, ?_, ?_⟩
+  · intro i; unfold bigNodes; split <;> exact ⟨rfl, rfl, fun e he => by cases he⟩
+  · intro i; unfold bigNodes StoreWF; split <;> decide
+  · intro i; unfold bigNodes; split
+    · exact Or.inr ⟨[0], by decide, by simp [Canon], by simp⟩
+    · exact Or.inr ⟨[1], by decide, by simp [Canon], by simp⟩
+  · intro y x hy hx hne
+    have : (y = 0 ∧ x = 1) ∨ (y = 1 ∧ x = 0) := by omega
+    rcases this with ⟨rfl, rfl⟩ | ⟨rfl, rfl⟩ <;> decide
+
+/-- three mutually close nodes, each with its own version of register 2 and transaction set 4 -/
+def cNodes : Nat → NodeSt := fun i => { store := [(2, .reg false [i]), (4, .txs [i])] }
+/-- one fair round in three phases, two advertisements in flight together in each. Phase at node 2: both lists arrive
+before any reply; the reply of node 1's register is processed first — its `put` drops the in-flight entry of node 0's
+fetch of the same key, whose reply arrives later all the same. Phase at node 1: nodes 0 and 2 advertise the SAME
+versions; the second list is queued behind the in-flight fetches of the first and leaves the queue when they are stored. -/
+def cPhases : List Phase :=
+  [⟨2, [.adv 0 [ent 0 (.reg false [0]) 2, ent 0 (.txs [0]) 4], .adv 1 [ent 1 (.reg false [1]) 2, ent 1 (.txs [1]) 4],
+        .rsp 2 [], .rsp 2 [], .rsp 0 [], .rsp 0 []], 20⟩,
+   ⟨0, [.adv 1 [ent 1 (.reg false [1]) 2, ent 1 (.txs [1]) 4],
+        .adv 2 [ent 2 (.reg false [0, 1, 2]) 2, ent 2 (.txs [0, 1, 2]) 4],
+        .rsp 3 [], .rsp 0 [], .rsp 1 [], .rsp 0 []], 25⟩,
+   ⟨1, [.adv 0 [ent 0 (.reg false [0, 1, 2]) 2, ent 0 (.txs [0, 1, 2]) 4], .adv 2 [], .rsp 1 [], .rsp 0 []], 20⟩]
+
+/-- non-vacuity of `mutable_converge_*_phases` / `concurrent_adverts_serial_*`: the concurrent round meets every
+hypothesis, covers all six ordered pairs, and leaves the unions everywhere; in the third phase two entries really were
+queued behind in-flight fetches of the same version -/
+theorem cValid :
+    validPB meshWorld3 cNodes cPhases = true ∧
+    pairsOf cPhases = [(0, 2), (1, 2), (1, 0), (2, 0), (0, 1), (2, 1)] ∧
+    (∀ i, i < 3 → (runPs meshWorld3 cNodes cPhases i).store =
+      [(2, .reg false [0, 1, 2]), (4, .txs [0, 1, 2])]) ∧
+    ((runEvs meshWorld3 1 (runPs meshWorld3 cNodes (cPhases.take 2))
+        ⟨runPs meshWorld3 cNodes (cPhases.take 2) 1, [], []⟩ [.adv 0 [ent 0 (.reg false [0, 1, 2]) 2, ent 0 (.txs [0, 1, 2]) 4],
+          .adv 2 []]).nd.fetcher.tbf.map (·.holder)) = [2, 2] := by
+  set_option maxRecDepth 100000 in decide
+
+example : ValidP meshWorld3 cNodes cPhases ∧ SafeNet.Replication.Abs.Covers 3 (pairsOf cPhases) ∧
+    (∀ i, StoreWF (cNodes i).store) ∧ (∀ i, RegKey false 2 (cNodes i)) ∧ (∀ i, TxKey 4 (cNodes i)) := by
+  refine ⟨validPB_sound cValid.1, ?_, ?_, ?_, ?_⟩
+  · rw [cValid.2.1]
+    intro y x hy hx hne
+    have : y = 0 ∨ y = 1 ∨ y = 2 := by omega
+    have : x = 0 ∨ x = 1 ∨ x = 2 := by omega
+    rcases ‹y = 0 ∨ y = 1 ∨ y = 2› with rfl | rfl | rfl <;> rcases ‹x = 0 ∨ x = 1 ∨ x = 2› with rfl | rfl | rfl <;>
+      first | exact absurd rfl hne | decide
+  · intro i; simp [StoreWF, cNodes]
+  · intro i; exact Or.inr ⟨[i], rfl, trivial⟩
+  · intro i; exact Or.inr ⟨[i], rfl, trivial, by simp⟩
+
 #print axioms SafeNet.Props.C09.only_close_holders_heard
 #print axioms SafeNet.Props.C09.only_close_holders_heard_sys
 #print axioms SafeNet.Props.C09.closeness_guard_present
@@ -1185,5 +1698,32 @@ example : (runXs padWorld chunkNodes chunkSched 1).store.get 0 = some .chunk ∧
 #print axioms SafeNet.Props.C09.chunkValid
 #print axioms SafeNet.Props.C09.lost_fetch_pruned
 #print axioms SafeNet.Props.C09.eventual_fetch_after_timeout
+#print axioms SafeNet.Props.C09.big_advert_converge_partial_txs
+#print axioms SafeNet.Props.C09.big_advert_converge_partial_reg
+#print axioms SafeNet.Props.C09.big_advert_replicates_partial_chunk
+#print axioms SafeNet.Props.C09.big_advert_replies_bound
+#print axioms SafeNet.Props.C09.big_advert_stall_witness
+#print axioms SafeNet.Props.C09.big_advert_always_drains_is_false
+#print axioms SafeNet.Props.C09.concurrent_adverts_serial_txs
+#print axioms SafeNet.Props.C09.concurrent_adverts_serial_reg
+#print axioms SafeNet.Props.C09.concurrent_adverts_serial_chunk
+#print axioms SafeNet.Props.C09.mutable_converge_txs_phases
+#print axioms SafeNet.Props.C09.mutable_converge_reg_phases
+#print axioms SafeNet.Props.C09.immutable_converge_phases
+#print axioms SafeNet.Props.C09.mutable_converge_txs_big
+#print axioms SafeNet.Props.C09.mutable_converge_reg_big
+#print axioms SafeNet.Props.C09.bigValid
+#print axioms SafeNet.Props.C09.cValid
+#print axioms SafeNet.Replication.pInv_step
+#print axioms SafeNet.Replication.phase_join
+#print axioms SafeNet.Replication.cascade_drains
+#print axioms SafeNet.Replication.evStep_rsp_measure
+#print axioms SafeNet.Replication.runPs_refines
+#print axioms SafeNet.Props.C09.sender_guard_present
+#print axioms SafeNet.Props.C09.armActs_iff
+#print axioms SafeNet.Props.C09.only_close_sender_heard
+#print axioms SafeNet.Props.C09.acted_list_names_its_close_sender
+#print axioms SafeNet.Props.C09.only_close_sender_heard_always
+#print axioms SafeNet.Props.C09.unguarded_arm_hears_far_sender_witness
 
 end SafeNet.Props.C09
